@@ -139,3 +139,9 @@ impl FixedOutput for Ripemd160 {
     #[verifier::external_body] fn finalize_into_reset(&mut self, out: &mut GenericArray<u8, Self::OutputSize>) { unimplemented!() }
     #[verifier::external_body] fn finalize_fixed(self) -> GenericArray<u8, Self::OutputSize> { unimplemented!() }
 }
+// ---- pbkdf2::pbkdf2::<PRF> (assumed): fills the whole output buffer with PBKDF2(PRF, password, salt, rounds) ----
+pub uninterp spec fn spec_pbkdf2<F>(password: Seq<u8>, salt: Seq<u8>, rounds: u32, len: nat) -> Seq<u8>;
+#[verifier::external_body]
+pub fn pbkdf2<F>(password: &[u8], salt: &[u8], rounds: u32, res: &mut Vec<u8>)
+    ensures final(res)@ == spec_pbkdf2::<F>(password@, salt@, rounds, old(res)@.len()), final(res)@.len() == old(res)@.len()
+{ unimplemented!() }
